@@ -3,6 +3,7 @@ package harness
 import (
 	"fmt"
 	"strings"
+	"time"
 
 	"github.com/alowayed/go-univers/pkg/spec/vers"
 )
@@ -16,6 +17,9 @@ import (
 // much the process has already seen (a table that changes behaviour once it
 // holds 2^16 entries) differs between the two.
 func Flood(spec *Spec, n int) (calls int) {
+	// best effort: a tree in which every call is slow (a batching design that
+	// makes a lone caller wait for a tick) gets a shorter flood, not a timeout
+	floodDeadline = time.Now().Add(10 * time.Second)
 	for _, ep := range spec.Ecos {
 		e := EcoByName(ep.Name)
 		if e == nil {
@@ -46,6 +50,8 @@ func Flood(spec *Spec, n int) (calls int) {
 	}
 	return calls
 }
+
+var floodDeadline time.Time
 
 var floodSeps = []string{"-", ".", "+", "~", "_", "", "-r", ".post", ":"}
 
@@ -117,6 +123,9 @@ func floodEco(e Eco, ep *EcoPool, n int) (calls int) {
 	for si, sc := range schemes {
 		var prev any = baseV[0]
 		for i := 0; i < n; i++ {
+			if i&255 == 0 && time.Now().After(floodDeadline) {
+				break
+			}
 			s := sc.text(i)
 			v, err := guardVersion(e, s)
 			calls++
@@ -165,6 +174,9 @@ func floodVers(scheme, version string, n int) (calls int) {
 	}
 	for _, sc := range schemes {
 		for i := 0; i < n; i++ {
+			if i&255 == 0 && time.Now().After(floodDeadline) {
+				break
+			}
 			try(sc.text(i))
 			calls++
 		}
